@@ -834,7 +834,12 @@ func (g *Up4Gen) Step() bool {
 	case len(live) == 0 || (x < 5 && len(live) < g.MaxSess):
 		g.Establish(peer)
 	case x < 15:
-		g.Modify(live[g.R.Intn(len(live))])
+		s := live[g.R.Intn(len(live))]
+		if x == 14 && g.R.Intn(2) == 0 {
+			g.RemoveDownlink(s) // from here on the session is only deleted
+		} else {
+			g.Modify(s)
+		}
 	case x < 18:
 		g.Delete(live[g.R.Intn(len(live))])
 	case x == 18 && g.Peers > 1:
